@@ -398,6 +398,16 @@ func c06Reporter(c *Ctx, aggs []*sampleAggregator) {
 				}
 				// the error value carries the counter
 				carries := false
+				// built by a constructor helper of the package that is given the loaded value (newSomeSamplesDropped(dropped))
+				for _, rt := range Roots(r.Results[0], false) {
+					if hc, _ := CallOfValue(rt); hc != nil && hc.Call.StaticCallee() != nil && PkgOf(hc.Call.StaticCallee()) == PkgOf(derr) {
+						for _, a := range hc.Call.Args {
+							if a == ssa.Value(load) {
+								carries = true
+							}
+						}
+					}
+				}
 				for _, rt := range Roots(r.Results[0], false) {
 					if a, ok := rt.(*ssa.Alloc); ok {
 						for _, ref := range *a.Referrers() {
